@@ -391,10 +391,7 @@ namespace hgraph
         const auto &ops    = dict_ops();
         const auto  result = ops.remove_key_impl(ops.context, mutation_.mutable_data(), key, current_mutation_time());
         apply_slot_mutation_result(mutation_, result);
-        if (!result.changed && ops.touch_impl(ops.context, mutation_.mutable_data(), current_mutation_time()))
-        {
-            mutation_.mark_modified();
-        }
+        if (!result.changed) { touch(); }
         return result.changed;
     }
 
@@ -402,10 +399,8 @@ namespace hgraph
     {
         std::vector<Value> current_keys;
         for (const auto key : keys()) { current_keys.emplace_back(key); }
-        const auto &ops           = dict_ops();
-        const bool  newly_touched = ops.touch_impl(ops.context, mutation_.mutable_data(), current_mutation_time());
+        touch();
         for (const auto &key : current_keys) { static_cast<void>(erase(key.view())); }
-        if (newly_touched) { mutation_.mark_modified(); }
     }
 
     bool TSDDataMutationView::copy_value_from(const ValueView &source)
